@@ -120,6 +120,16 @@ def make_integer(rule, length_text, fmt):
             exp = False
         else:
             text = str(n)
+            # the stub decoupled text and value: also try the non-canonical literal of the same length as the cell
+            cell = args["cell"]
+            if not fixed and rule_items is not None and length_items is None and n >= 0 and len(cell) > len(text):
+                padded = text.rjust(min(len(cell), 40), "0")
+                try:
+                    if (field.validated(padded) == n) != ff.in_items(rule_items, n):
+                        return True, "Integer(rule=%r).validated(%r): the integer literal %r denotes %d" % (rule, padded, padded, n), "integer-field"
+                except errors.FieldValueError as e:
+                    if ff.in_items(rule_items, n):
+                        return True, "Integer(rule=%r).validated(%r) rejected (%s) although the literal denotes %d" % (rule, padded, e, n), "integer-field"
             exp = ff.in_items(rule_items, n) if rule_items is not None else (
                 (ff.in_items(length_items, len(text)) if not fixed else len(text) <= length_items[0][0])
                 if length_items is not None else -2 ** 31 <= n <= 2 ** 31 - 1)
@@ -335,6 +345,7 @@ def make_decimal(rule, dsep, tsep, fmt, maxlen, scale=2, specials=False):
 CHOICE_RULES = {
     "ab,cd": ["ab", "cd"], "red, Green ,blue": ["red", "Green", "blue"], '"a b","x,y",z': ["a b", "x,y", "z"],
     "1,22,x3": ["1", "22", "x3"], "ä,ßü": ["ä", "ßü"], "'it''s',\"q\"": None,
+    "'12\"', \"6'\", x": ['12"', "6'", "x"],
 }
 
 
